@@ -371,8 +371,10 @@ theorem getCT_noCrash : ∀ (f : Nat) (name : Str), name.length + 1 ≤ f → No
 theorem getCassandraType_noCrash (s : Str) : NoCrash (getCassandraType s) :=
   getCT_noCrash _ s (Nat.le_refl _)
 
-theorem getTypeInfo_noCrash (s : Str) : NoCrash (getTypeInfo s) := by
-  unfold getTypeInfo; split <;> exact getCassandraType_noCrash _
+theorem getTypeInfoFx_noCrash (fx : Bool) (s : Str) : NoCrash (getTypeInfoFx fx s) := by
+  unfold getTypeInfoFx; split <;> exact getCassandraType_noCrash _
+
+theorem getTypeInfo_noCrash (s : Str) : NoCrash (getTypeInfo s) := getTypeInfoFx_noCrash false s
 
 theorem parseType_fixed_noCrash (s : Str) : NoCrash (parseType true s) := by
   intro x hx
